@@ -222,6 +222,12 @@ def polar_cap_observation(r, c, res):
              f"{res.get('seen', {}).get('depth')}: cells where the Dask-backed proximity differs from NumPy",
         cells=cells, dask_equals_numpy=not cells and res["dask"][0] == "ok"))
     r.case({k: c[k] for k in c if k != "stream"}, nontrivial=False, tags=["stream:observation"])
+    if cells:
+        # a genuine defect of /repo inside the property's domain (the halo, 2 columns, does not exceed the raster): listed in
+        # KNOWN_FINDINGS.txt under this key, which is assigned to this one input only -- any other Dask / NumPy difference
+        # keeps its own key and is reported
+        r.fail("gc-halo:near-pole", f"Dask-backed proximity differs from NumPy at {[x['cell'] for x in cells]} "
+               "(GREAT_CIRCLE, row 0 within 57 m of the south pole, max_distance 2.25 mm)", {k: c[k] for k in c})
 
 
 def case_array(c):
